@@ -140,7 +140,9 @@ int main(int argc, char **argv) {
         plan.rule = "(i) sign x 2047 binary exponents x " + std::to_string(npat) + " mantissa patterns x " +
                     std::to_string(precs.size()) + " precisions x {Default,Fixed,SemiFixed}; (ii) k/1000 for k<=" + std::to_string(kmax) +
                     " x precision 0..6 x 3 formats; (iii) floats: all bit patterns whose low " + std::to_string(32 - fbits) +
-                    " bits are zero, Default-6, Default-9, Fixed-3; (iv) all 8/16-bit integers, 32-bit integers with the low " +
+                    " bits are zero, Default-6, Default-9, Fixed-3; (iii-b) doubles at and next to 0.<1..20 digits>5 x 10^k, k=-324..307, "
+                    "18 digit prefixes x 3/6 fills, printed at the tie's own precision in all formats; exact ties m/2^j (j<=41, odd m<4096, "
+                    "plus whole parts) at precision j-2..j and whole numbers o*5^a*2^b at one to three digits less than they have; (iv) all 8/16-bit integers, 32-bit integers with the low " +
                     std::to_string(32 - i32bits) + " bits in {0, all ones}, 64-bit boundary lattice; inf/nan; sentinel-prefixed "
                     "streams; char, char16_t, char32_t; oracle printf; distinct = distinct (class) outcomes + lattice points";
         plan.bounds = "patterns=" + std::to_string(npat) + " kmax=" + std::to_string(kmax) + " floatbits=" + std::to_string(fbits);
@@ -204,6 +206,150 @@ int main(int argc, char **argv) {
                             ctx.acc.count("states");
                             real_case<char>(d, prec, fmt, 0, ctx);
                             real_case<char>(-d, prec, fmt, 1, ctx);
+                        }
+                    }
+                }
+            };
+            plan.stages.push_back(st);
+        }
+        {
+            // doubles next to a decimal tie: 0.<digits>5 x 10^k rounded to a double, and its two neighbours, printed with
+            // as many digits as put the '5' first among the discarded ones (Default), and at the matching Fixed precision
+            vx::Stage st;
+            st.name   = "decimal-ties";
+            st.chunks = 632; // k = -324 .. 307
+            st.fn     = [th](int64_t chunk, vx::Ctx &ctx) {
+                static const char *PFX[] = {"1", "2", "4", "5", "8", "9", "10", "12", "19", "25", "49", "50", "75", "99", "100", "125", "999", "1024"};
+                static const char *FILL[] = {"0000000000000000000000", "9999999999999999999999", "1428571428571428571428", "5050505050505050505050",
+                                             "4999999999999999999999", "0000000000000000000001"};
+                const int k = (int)chunk - 324;
+                for (unsigned P = 1; P <= 20; P++) {
+                    for (const char *pfx : PFX) {
+                        if (strlen(pfx) > P) {
+                            continue;
+                        }
+                        for (int fi = 0; fi < (th ? 6 : 3); fi++) {
+                            if (!ctx.next()) {
+                                continue;
+                            }
+                            char txt[96];
+                            snprintf(txt, sizeof txt, "0.%s%.*s5e%d", pfx, (int)(P - strlen(pfx)), FILL[fi], k);
+                            if (ctx.want_desc()) {
+                                ctx.describe(std::string("tie ") + txt + " digits=" + std::to_string(P));
+                            }
+                            const double d0 = strtod(txt, nullptr);
+                            if (!(d0 > 0) || !std::isfinite(d0)) {
+                                continue;
+                            }
+                            ctx.acc.count("states");
+                            const double ds[3] = {d0, std::nextafter(d0, INFINITY), std::nextafter(d0, 0.0)};
+                            // the leading digit has decimal exponent k-1, the last kept one k-P
+                            const int fp = (int)P - k;
+                            for (double d : ds) {
+                                if (!(d > 0) || !std::isfinite(d)) {
+                                    continue;
+                                }
+                                real_case<char>(d, P, 0, 0, ctx);
+                                real_case<char>(-d, P, 0, 1, ctx);
+                                if (fp >= 0 && fp <= 40) {
+                                    real_case<char>(d, (unsigned)fp, 1, 1, ctx);
+                                    real_case<char>(-d, (unsigned)fp, 2, 0, ctx);
+                                }
+                            }
+                        }
+                    }
+                }
+            };
+            plan.stages.push_back(st);
+        }
+        {
+            // exact ties: m / 2^j ends in ...5 at its j-th fractional digit; whole numbers o * 5^a * 2^b (b < a) end in 5 and b zeros
+            vx::Stage st;
+            st.name   = "exact-ties";
+            st.chunks = 64;
+            st.fn     = [](int64_t chunk, vx::Ctx &ctx) {
+                auto sig_digits = [](double d) {
+                    char b[1200];
+                    snprintf(b, sizeof b, "%.1100f", d);
+                    int first = -1, last = -1, n = 0;
+                    for (char *c = b; *c; c++) {
+                        if (*c >= '0' && *c <= '9') {
+                            if (*c != '0') {
+                                if (first < 0) {
+                                    first = n;
+                                }
+                                last = n;
+                            }
+                            n++;
+                        }
+                    }
+                    return first < 0 ? 0 : last - first + 1;
+                };
+                // dyadic fractions: j = 1..41, m odd in 64*chunk .. 64*chunk+63 and m + 2^j * {1, 123456}
+                for (unsigned j = 1; j <= 41; j++) {
+                    for (uint64_t m = 64 * (uint64_t)chunk + 1; m < 64 * ((uint64_t)chunk + 1); m += 2) {
+                        for (uint64_t whole : {uint64_t(0), uint64_t(1), uint64_t(123456)}) {
+                            if (!ctx.next()) {
+                                continue;
+                            }
+                            const double d = std::ldexp((double)m, -(int)j) + (double)whole;
+                            if (ctx.want_desc()) {
+                                ctx.describe("dyadic " + std::to_string(m) + "/2^" + std::to_string(j) + "+" + std::to_string(whole));
+                            }
+                            if (std::ldexp((double)m, -(int)j) >= 1.0 && whole != 0) {
+                                continue;
+                            }
+                            ctx.acc.count("states");
+                            const int sd = sig_digits(d);
+                            for (int fmt = 1; fmt < 3; fmt++) {
+                                real_case<char>(d, j - 1, fmt, 0, ctx);
+                                real_case<char>(-d, j - 1, fmt, 1, ctx);
+                                if (j >= 2) {
+                                    real_case<char>(d, j - 2, fmt, 0, ctx);
+                                }
+                                if (j <= 40) {
+                                    real_case<char>(d, j, fmt, 0, ctx);
+                                }
+                            }
+                            if (sd >= 2 && sd <= 41) {
+                                real_case<char>(d, (unsigned)sd - 1, 0, 0, ctx);
+                                real_case<char>(-d, (unsigned)sd - 1, 0, 1, ctx);
+                            }
+                            if (sd >= 3 && sd <= 42) {
+                                real_case<char>(d, (unsigned)sd - 2, 0, 0, ctx);
+                            }
+                        }
+                    }
+                }
+                // whole numbers ending in 5 and zeros
+                if (chunk < 32) {
+                    const uint64_t o = 2 * (uint64_t)chunk + 1;
+                    double         p5 = 1;
+                    for (int a = 1; a <= 22; a++) {
+                        p5 *= 5;
+                        if ((double)o * p5 >= 9007199254740992.0) {
+                            break;
+                        }
+                        for (int b = 0; b < a; b++) {
+                            for (int extra : {0, 60, 300}) { // times 2^extra keeps the pattern only while b + extra < a; otherwise a plain whole number
+                                if (!ctx.next()) {
+                                    continue;
+                                }
+                                const double d = std::ldexp((double)o * p5, b + extra);
+                                if (ctx.want_desc()) {
+                                    ctx.describe("whole " + std::to_string(o) + "*5^" + std::to_string(a) + "*2^" + std::to_string(b + extra));
+                                }
+                                ctx.acc.count("states");
+                                const int sd = sig_digits(d);
+                                for (int dd = 1; dd <= 3; dd++) {
+                                    if (sd - dd >= 1 && sd - dd <= 40) {
+                                        real_case<char>(d, (unsigned)(sd - dd), 0, 0, ctx);
+                                        real_case<char>(-d, (unsigned)(sd - dd), 0, 1, ctx);
+                                    }
+                                }
+                                real_case<char>(d, 0, 1, 0, ctx);
+                                real_case<char>(d, 2, 2, 0, ctx);
+                            }
                         }
                     }
                 }
